@@ -12,7 +12,7 @@ CONSTANTS
   Gaps = {1}
   RFs <- RFsZero
   Ivs = {"Daily"}
-INVARIANTS TypeC16 GenerateIsBatch AccSheet WinRateSane ProfitFactorSane OrderFreeC16
-PROPERTIES Keyed Additive LatestBalance PersistIsStutter
+INVARIANTS TypeC16 GenerateIsBatch AccSheet AccReturns WinRateSane ProfitFactorSane OrderFreeC16
+PROPERTIES Keyed Additive LatestBalance EveryBalanceCounts PersistIsStutter
 CHECK_DEADLOCK FALSE
 VIEW View
